@@ -62,6 +62,8 @@ func (fx *FnCtx) resolveType(s string) types.Type {
 		return types.Universe.Lookup("error").Type()
 	case "ref":
 		return types.NewPointer(types.NewStruct(nil, nil))
+	case "struct{}":
+		return types.NewStruct(nil, nil)
 	}
 	if i := strings.Index(s, "."); i > 0 {
 		// pkg.Type
@@ -77,6 +79,16 @@ func (fx *FnCtx) resolveType(s string) types.Type {
 	if o := fx.pkg.Types.Scope().Lookup(s); o != nil {
 		if _, ok := o.(*types.TypeName); ok {
 			return o.Type()
+		}
+	}
+	// contracts shared between packages name the types of the declaring package unqualified
+	for _, imp := range fx.pkg.Types.Imports() {
+		if strings.HasPrefix(imp.Path(), "github.com/mna/pigeon") {
+			if o := imp.Scope().Lookup(s); o != nil {
+				if _, ok := o.(*types.TypeName); ok {
+					return o.Type()
+				}
+			}
 		}
 	}
 	fx.fail("unknown type %q in contract", s)
